@@ -379,8 +379,8 @@ def cases_for(op, seed):
                 cmds.append((ty, h, d, tr))
             idxs = (0, 3, 4) if use_stdin else (3, 4, 5)
             stacks = {i: [rnd.choice(vals[:-1])] + [rnd.choice(vals) for _ in range(rnd.randint(0, 3))] for i in idxs if rnd.random() < 0.7}
-            stdin = rnd.choice(["", "A", "AB\\nC", "x\\n\\nyz"]) if use_stdin else ""
-            exp = machine_run(cmds, stacks, 40 if loopy else 12, stdin.replace("\\n", "\n"))
+            stdin = rnd.choice(["", "A", "AB\\nC", "x\\n\\nyz", "A\\r\\nBC"]) if use_stdin else ""
+            exp = machine_run(cmds, stacks, 40 if loopy else 12, stdin.replace("\\n", "\n").replace("\\r", "\r"))
             if exp is None:
                 continue
             prog = ";".join("%d,%d,%d,%s" % (ty, h, d, " ".join(tree_tokens(t))) for ty, h, d, t in cmds)
@@ -581,7 +581,8 @@ def known_replay_inputs(prop):
         return set()
     res = set()
     for f in k.get("findings", []):
-        if f.get("status") == "known" and (prop is None or f.get("property") == prop):
+        # a recorded defect is known whichever property's check runs into it
+        if f.get("status") == "known":
             for ri in f.get("replay_inputs", []):
                 res.add((ri["replay_line"], ri["got"]))
     return res
